@@ -5,7 +5,6 @@
 
 from __future__ import annotations
 
-import contextlib
 import logging
 from collections.abc import Callable, Iterator
 from io import IOBase
@@ -227,6 +226,25 @@ class StreamSession:
             except StopIteration:
                 break
 
+    def _drain_output(self) -> None:
+        """Read the output stream to its end, discarding what is left.
+
+        An error batch met while draining (or a log callback that raises) is
+        discarded like any other batch: stopping there would leave the rest of
+        the stream on the transport, and the next call on the connection would
+        read it as the start of its own response.
+        """
+        if self._output_reader is None:
+            return
+        _MAX_DRAIN = 10_000
+        for _ in range(_MAX_DRAIN):
+            try:
+                _read_batch_with_log_check(self._output_reader, self._on_log, self._external_config, shm=self._shm)
+            except (StopIteration, pa.ArrowInvalid, OSError):
+                return
+            except Exception:  # RpcError, or the caller's on_log raising: keep draining
+                continue
+
     def close(self) -> None:
         """Close input stream (signals EOS) and drain remaining output."""
         if self._closed:
@@ -244,10 +262,7 @@ class StreamSession:
                 self._output_reader = ValidatedReader(ipc.open_stream(self._reader_stream), self._ipc_validation)
             except (pa.ArrowInvalid, OSError, StopIteration):
                 return
-        _MAX_DRAIN = 10_000
-        with contextlib.suppress(StopIteration, RpcError, pa.ArrowInvalid, OSError):
-            for _ in range(_MAX_DRAIN):
-                _read_batch_with_log_check(self._output_reader, self._on_log, self._external_config, shm=self._shm)
+        self._drain_output()
 
     def cancel(self) -> None:
         """Signal the server to stop processing and discard pending work.
@@ -282,10 +297,7 @@ class StreamSession:
                 self._output_reader = ValidatedReader(ipc.open_stream(self._reader_stream), self._ipc_validation)
             except (pa.ArrowInvalid, OSError, StopIteration):
                 return
-        _MAX_DRAIN = 10_000
-        with contextlib.suppress(StopIteration, RpcError, pa.ArrowInvalid, OSError):
-            for _ in range(_MAX_DRAIN):
-                _read_batch_with_log_check(self._output_reader, self._on_log, self._external_config, shm=self._shm)
+        self._drain_output()
 
     def __enter__(self) -> StreamSession:
         """Enter context manager."""
